@@ -18,6 +18,9 @@ type dataBackupHelper struct {
 }
 
 func newDataBackupHelper(dataFolder string, keep int) *dataBackupHelper {
+	// Dir and Base of a path with a trailing slash would not name the
+	// folder itself.
+	dataFolder = filepath.Clean(dataFolder)
 	return &dataBackupHelper{
 		baseDir:    filepath.Dir(dataFolder),
 		folderName: filepath.Base(dataFolder),
